@@ -64,6 +64,7 @@ class Module:
             self.tree = ast.parse(self.src, filename=path)
         except SyntaxError as e:
             raise AnalysisError(f'cannot parse {self.relpath}: {e}')
+        normalise(self.tree)
         self.imports: dict[str, str] = {}
         self.funcs: dict[str, Func] = {}
         self.classes: dict[str, ast.ClassDef] = {}
@@ -132,6 +133,55 @@ class Module:
 
     def __repr__(self):
         return f'<Module {self.name}>'
+
+
+def normalise(tree: ast.AST) -> None:
+    """Statement-level canonicalisation applied to every module before any rule looks at it, so that three common
+    behaviour-preserving spellings never matter:
+      * `if not c: A else: B`            ->  `if c: B else: A`
+      * `x = x + y` / `x = x - y`        ->  `x += y` / `x -= y`        (plain names)
+      * `t = <expr>; return t`           ->  `return <expr>`            (t used nowhere else)
+    Line numbers of the surviving nodes are kept."""
+    for n in ast.walk(tree):
+        if isinstance(n, ast.If) and isinstance(n.test, ast.UnaryOp) and isinstance(n.test.op, ast.Not) and n.orelse and not (len(n.orelse) == 1 and isinstance(n.orelse[0], ast.If)):
+            n.test = n.test.operand
+            n.body, n.orelse = n.orelse, n.body
+    for fn in [x for x in ast.walk(tree) if isinstance(x, (ast.FunctionDef, ast.AsyncFunctionDef, ast.Module))]:
+        counts = {}
+        pairs = {}
+        if not isinstance(fn, ast.Module):
+            for x in ast.walk(fn):
+                if isinstance(x, ast.Name):
+                    counts[x.id] = counts.get(x.id, 0) + 1
+                for field in ('body', 'orelse', 'finalbody'):
+                    b = getattr(x, field, None)
+                    if isinstance(b, list):
+                        for a, r in zip(b, b[1:]):
+                            if isinstance(a, ast.Assign) and len(a.targets) == 1 and isinstance(a.targets[0], ast.Name) and isinstance(r, ast.Return) and isinstance(r.value, ast.Name) and r.value.id == a.targets[0].id \
+                                    and not any(isinstance(y, ast.Name) and y.id == a.targets[0].id for y in ast.walk(a.value)):
+                                pairs[a.targets[0].id] = pairs.get(a.targets[0].id, 0) + 1
+        for holder in ast.walk(fn):
+            for field in ('body', 'orelse', 'finalbody'):
+                body = getattr(holder, field, None)
+                if not isinstance(body, list) or (isinstance(holder, (ast.FunctionDef, ast.AsyncFunctionDef, ast.ClassDef)) and holder is not fn):
+                    continue
+                out = []
+                i = 0
+                while i < len(body):
+                    st = body[i]
+                    if (isinstance(st, ast.Assign) and len(st.targets) == 1 and isinstance(st.targets[0], ast.Name) and isinstance(st.value, ast.BinOp) and isinstance(st.value.op, (ast.Add, ast.Sub))
+                            and isinstance(st.value.left, ast.Name) and st.value.left.id == st.targets[0].id):
+                        st = ast.copy_location(ast.AugAssign(target=ast.Name(st.targets[0].id, ast.Store()), op=st.value.op, value=st.value.right), st)
+                        ast.fix_missing_locations(st)
+                    nxt = body[i + 1] if i + 1 < len(body) else None
+                    if (not isinstance(fn, ast.Module) and isinstance(st, ast.Assign) and len(st.targets) == 1 and isinstance(st.targets[0], ast.Name) and isinstance(nxt, ast.Return)
+                            and isinstance(nxt.value, ast.Name) and nxt.value.id == st.targets[0].id and counts.get(nxt.value.id, 0) == 2 * pairs.get(nxt.value.id, 0)):
+                        out.append(ast.copy_location(ast.Return(st.value), st))
+                        i += 2
+                        continue
+                    out.append(st)
+                    i += 1
+                body[:] = out
 
 
 def _is_main_guard(test: ast.AST) -> bool:
